@@ -53,7 +53,7 @@ def classify(pid, spec, jr):
         out['decided'] += 1
         m = re.match(r'^(C\d\d): ', desc)
         if m:
-            if m.group(1) in tags:
+            if m.group(1) in tags or (getattr(spec, 'also', ()) and desc.startswith(spec.also)):
                 out['decided_tagged'] += 1
                 if st == 'FAILURE': out['violations'].append(r)
             elif st == 'FAILURE': out['other_tag_failures'].append(desc)
